@@ -37,19 +37,32 @@ Proof.
   rewrite K, Z.eqb_refl in PS. unfold rtk in E. rewrite E in PS. rewrite V, Z.eqb_refl in PS. cbn in PS. now apply zmem_in.
 Qed.
 
+(* the lower window as a proposition *)
+Definition lwp (st : state) : Prop :=
+  (forall tk dv H x r0, tget (s_dtr st) tk = Some (dv, H) -> In x H -> rget (s_reps st) (x, tk) = Some r0 -> dv <= r_ver r0) /\
+  (forall e dv H, In e (s_pool st) -> k_kind (p_rpc e) = K_SetVersion ->
+     tget (s_dtr st) (rtk (p_rpc e)) = Some (dv, H) -> k_ver (p_rpc e) = dv + 1 -> In (k_ts (p_rpc e)) H).
+
+Lemma lw_ok_lwp : forall st, lw_ok st = true -> lwp st.
+Proof.
+  intros st LW. apply andb_true_iff in LW as [HV PS]. split.
+  - intros tk dv H x r0 E I G. eapply hv_use; eauto.
+  - intros e dv H I K E V. eapply ps_use; eauto.
+Qed.
+
 Lemma side_of : forall st e mode,
-  lw_ok st = true -> In e (s_pool st) ->
+  lwp st -> In e (s_pool st) ->
   (if k_kind (p_rpc e) =? K_Create then (mode =? 4) || negb (durable st (tkey (k_blob (p_rpc e)) (k_tract (p_rpc e)))) else true) = true ->
   (if k_kind (p_rpc e) =? K_PullTract then (mode =? 4) || negb (stale_pull st (p_rpc e)) else true) = true ->
   (mode =? 4) = false -> side_ok st e.
 Proof.
-  intros st e mode LW Ie C P M. apply andb_true_iff in LW as [HV PS]. rewrite M in C, P. cbn in C, P. split; [|split].
+  intros st e mode [HV PS] Ie C P M. rewrite M in C, P. cbn in C, P. split; [|split].
   - intros K. rewrite K, Z.eqb_refl in C. apply negb_true_iff in C. unfold durable in C. unfold rtk.
     destruct (tget (s_dtr st) _); [discriminate | reflexivity].
   - intros K. rewrite K, Z.eqb_refl in P. now apply negb_true_iff in P.
   - intros K dv H E. split.
-    + intros V. eapply ps_use; eauto.
-    + intros r0 I G. eapply hv_use; eauto.
+    + intros V. eapply PS; eauto.
+    + intros r0 I G. eapply HV; eauto.
 Qed.
 
 Definition G (st : state) : Prop := Inv2 st /\ att_ok st /\ ord_ok st /\ acked_ok st /\ tr_ok st /\ cinv st.
@@ -71,7 +84,7 @@ Lemma ops_uniq_same : forall st st', s_ops st' = s_ops st -> ops_uniq st -> ops_
 Proof. intros st st' E U. unfold ops_uniq in *. now rewrite E. Qed.
 
 Lemma cinv_step_exec : forall L st mode r,
-  ok_ev L st (7 :: mode :: r) = true -> lw_ok st = true -> G st ->
+  ok_ev L st (7 :: mode :: r) = true -> lwp st -> G st ->
   cinv (fst (step_exec st mode r)) /\ tr_ok (fst (step_exec st mode r)).
 Proof.
   intros L st mode r OK LW (I2 & A & OO & AK & T & C).
@@ -296,7 +309,7 @@ Qed.
 Lemma keeps_change_tract : forall st term b t v h, keeps st (fst (change_tract st term b t v h)).
 Proof. intros. apply keeps_of_still_ops; [apply still_change_tract | apply ops_change_tract]. Qed.
 
-Theorem ct_step : forall L st ev, ok_ev L st ev = true -> lw_ok st = true -> G st ->
+Theorem ct_step : forall L st ev, ok_ev L st ev = true -> lwp st -> G st ->
   cinv (fst (step st ev)) /\ tr_ok (fst (step st ev)).
 Proof.
   intros L st ev OK0 LW0 G0.
@@ -305,7 +318,7 @@ Proof.
   pose proof (inv2_step st ev NE (proj1 G0)) as I2F.
   unfold step in *.
   assert (OK : ok_ev L (set_out st []) ev = true) by exact OK0.
-  assert (LW : lw_ok (set_out st []) = true) by exact LW0.
+  assert (LW : lwp (set_out st [])) by exact LW0.
   assert (GS : G (set_out st [])) by exact G0. clear OK0 LW0 G0.
   set (s := set_out st []) in *. clearbody s.
   pose proof GS as (I2 & A & OO & AK & T & C). pose proof OO as (U & _ & _ & O4 & _).
@@ -403,7 +416,7 @@ Proof.
 Qed.
 
 (* ---------- along a schedule ---------- *)
-Theorem G_step : forall L st ev, ok_ev L st ev = true -> lw_ok st = true -> G st -> G (fst (step st ev)).
+Theorem G_step : forall L st ev, ok_ev L st ev = true -> lwp st -> G st -> G (fst (step st ev)).
 Proof.
   intros L st ev OK LW GS. pose proof GS as (I2 & A & OO & AK & T & C).
   assert (NE : hd 0 ev <> 17).
@@ -432,7 +445,7 @@ Theorem G_run : forall L evs st, ok_run L st evs = true -> lw_run st evs = true 
 Proof.
   induction evs as [|ev evs IH]; intros st OK LW GS; [exact GS|].
   cbn in OK, LW. apply andb_true_iff in OK as [OK1 OK2]. apply andb_true_iff in LW as [LW1 LW2].
-  cbn [run_state]. apply IH; auto. eapply G_step; eauto.
+  cbn [run_state]. apply IH; auto. eapply G_step; eauto. now apply lw_ok_lwp.
 Qed.
 
 (* ---------- visibility ---------- *)
